@@ -11,6 +11,15 @@ func (rt *runtime) cmplEvaluateNodeProgram(node *nodeProgram, eval bool) Value {
 	}
 	rt.cmplFunctionDeclaration(node.functionList)
 	rt.cmplVariableDeclaration(node.varList)
+	if eval {
+		// Direct eval code runs in the scope (and stack frame) of its caller:
+		// give the frame back its own file when the eval code is done, also
+		// when it is left by an exception.
+		scope, file := rt.scope, rt.scope.frame.file
+		defer func() {
+			scope.frame.file = file
+		}()
+	}
 	rt.scope.frame.file = node.file
 	return rt.cmplEvaluateNodeStatementList(node.body)
 }
